@@ -49,6 +49,27 @@ fn run_case<K: IndexType>(ctx: &mut Ctx, rng: &mut Rng, case: u64, w: u32) {
         let r = catch(|| list(uf.clone().into_labeling().iter().map(|k| k.index())));
         ctx.line("labeling", &r.unwrap_or("panic".into()));
     }
+    // hub family (widths >= 16 only): one root absorbs several hundred classes, always as the first
+    // argument. With union by rank the hub's rank stays 1; a rank that grows with every absorption
+    // (rank is a u8) overflows after 255 of them — far beyond what random unions on small sets reach.
+    if w >= 16 && n0 >= 8 && rng.chance(8) {
+        let extra = 290 + rng.below(80);
+        for _ in 0..extra {
+            uf.new_set();
+        }
+        ctx.line(&format!("grow {}", extra), "ok");
+        let n = uf.len();
+        let hub = rng.below(n0);
+        for i in 0..n {
+            if i == hub {
+                continue;
+            }
+            let r = catch(|| uf.union(K::new(hub), K::new(i)));
+            ctx.line(&format!("union {} {}", hub, i), &r.map(|v| v.to_string()).unwrap_or("panic".into()));
+        }
+        let r = catch(|| list((0..uf.len()).map(|i| uf.find(K::new(i)).index())));
+        ctx.line("dump", &r.unwrap_or_else(|| "panic".into()));
+    }
     let nops = 5 + rng.below(if n0 > 30 { 120 } else { 55 });
     let dump = |ctx: &mut Ctx, uf: &UnionFind<K>| {
         let r = catch(|| list((0..uf.len()).map(|i| uf.find(K::new(i)).index())));
